@@ -170,22 +170,20 @@ class C10StopRestart(Oracle):
             return
         # UOD commands that really started in this run: probe instances that executed since the run started
         run_start = max([e[0] for e in w.events if e[1] == "start"] or [0])
-        executed: dict[str, set[int]] = {}
+        # the run-log item of a method-issued command carries the instance id of its invocation, which the probe command
+        # reports too (a command started by a user button has no item): every item of a command that executed is concluded
+        executed: dict[str, tuple[str, int]] = {}
         for ev in w.plog.events:
-            if ev[0] >= run_start and ev[1] == "exec":
-                executed.setdefault(ev[2], set()).add(ev[3])
-        lines_by: dict[str, list] = {}
+            if ev[0] >= run_start and ev[1] == "exec" and len(ev) > 6 and ev[6]:
+                executed.setdefault(ev[6], (ev[2], ev[3]))
         for ln in msg.runlog.lines:
             base = ln.command_name.split(":")[0].strip()
-            if base in model.UOD:
-                lines_by.setdefault(base, []).append(ln)
-        for base, insts in executed.items():
-            lns = lines_by.get(base, [])
-            concluded = [ln for ln in lns if ln.end is not None or ln.cancelled or ln.failed]
-            if len(concluded) < len(insts):
+            if base not in model.UOD or str(ln.id) not in executed:
+                continue
+            if not (ln.end is not None or ln.cancelled or ln.failed):
                 self.v("C10", "C10.uod_command_open_in_final_runlog" + w.ctx(), base,
-                       f"{len(insts)} instance(s) of {base} executed in the run but the run-stopped run log shows only "
-                       f"{len(concluded)} of its {len(lns)} {base} item(s) as completed, failed or cancelled")
+                       f"{ln.command_name!r} (invocation {str(ln.id)[-4:]}, probe instance {executed[str(ln.id)][1]}) executed "
+                       f"in the run but its item in the run-stopped run log is neither completed, failed nor cancelled")
         self.res.probe("run_stopped_msg_checked")
 
     def after_tick(self, w, inc):
